@@ -110,7 +110,7 @@ CHECKS = {
             'Trusted: Drop of the scripted socket halves is what the peer would see as the transport closing; the harness ticker stands in for the connection\'s executor thread.', '6, 7/C39'),
     'C31': ('history- and schedule-exploring PBT of a caching proxy against a server-consistent fake service',
             'Exploration over interleavings of the GetAll reply with changed / invalidated signals (own and other interfaces, uncached property); cached values == fold(snapshot, later signals); signals naming several properties, mixed changed / invalidated lists.',
-            'Trusted: the fake service emits only histories a real service could (snapshot reflects earlier changes). Property-change streams are exercised indirectly (cache task).', '7/C31'),
+            'Trusted: the fake service emits only histories a real service could (snapshot reflects earlier changes). Property change streams for a cached property are looked at only at rest (coalescing is documented): a new stream yields the current value first, and after further signals touching the property every stream yields and reports the latest value (refetched after an invalidation); one or two streams per property.', '7/C31'),
     'C32': ('history-exploring PBT of a proxy signal stream over a fake bus (owner lookups, genuine and forged owner changes, signals from several senders)',
             'Exploration over bus histories: yielded signals == those whose sender owned the name at receive time per the bus driver only.',
             'Trusted: fake bus; signals from non-owners are delivered as unicasts (a real bus would not route their broadcasts to us).', '7/C32'),
